@@ -1438,6 +1438,11 @@ class _IndexGOMixin:
             if not (isinstance(value, INT_TYPES)
                     and value == self._positions_mutable_count):
                 initialize_map = True
+                try:
+                    # build the map before any state is changed: a value equal to an existing integer label (1.0, True) is only found to be a duplicate here
+                    automap = AutoMap(self._labels_mutable + [value])
+                except ValueError:
+                    raise KeyError(f'duplicate key append attempted: {value}') from None
         else:
             self._map.add(value)
 
@@ -1451,7 +1456,7 @@ class _IndexGOMixin:
         self._labels_mutable.append(value)
 
         if initialize_map:
-            self._map = AutoMap(self._labels_mutable)
+            self._map = automap
 
         self._positions_mutable_count += 1
         self._recache = True
